@@ -511,6 +511,153 @@ pub fn bases(tier: Tier) -> Vec<Case> {
     v
 }
 
+// ------------------------------------------------------------------------------------------
+// caller-supplied client data: the embedder may implement ClientData itself – hand in the hash,
+// extra members, or both – and extras that cannot be flattened into the client-data JSON (a bare
+// string, a number, a list) make the client give up.  Whether it gives up with an error or by
+// panicking, and wherever in the ceremony it notices, a ceremony that did not succeed leaves the
+// store as it was.
+struct OwnClientData<E> {
+    hash: Option<Vec<u8>>,
+    extra: E,
+}
+impl<E: Serialize + Clone> passkey_client::ClientData<E> for OwnClientData<E> {
+    fn extra_client_data(&self) -> E {
+        self.extra.clone()
+    }
+    fn client_data_hash(&self) -> Option<Vec<u8>> {
+        self.hash.clone()
+    }
+}
+#[derive(Clone, Serialize)]
+struct PkgExtra {
+    #[serde(rename = "androidPackageName")]
+    android_package_name: String,
+}
+/// a value whose serialisation fails on its own
+#[derive(Clone)]
+struct Unserialisable;
+impl Serialize for Unserialisable {
+    fn serialize<S: serde::Serializer>(&self, _s: S) -> Result<S::Ok, S::Error> {
+        Err(serde::ser::Error::custom("injected: this extra refuses to serialise"))
+    }
+}
+const EXTRAS: [&str; 10] = ["unit", "struct", "map", "empty-map", "string", "integer", "list", "null-option", "bool", "unserialisable"];
+const HASHES: [&str; 4] = ["none", "32-bytes", "empty", "5-bytes"];
+fn own_client_data_one(get: bool, store: &str, extra: &str, hash: &str, counter: bool) -> Vec<(String, String)> {
+    let hashv = match hash {
+        "32-bytes" => Some(vec![0xC4; 32]),
+        "empty" => Some(vec![]),
+        "5-bytes" => Some(vec![1, 2, 3, 4, 5]),
+        _ => None,
+    };
+    let log = Log::new();
+    let uv = ScriptedUv::consenting(log.clone());
+    let cfg = AuthCfg { counter, id_len: None, hmac: 2, hmac_mc: true, order: 0 };
+    let origin = url::Url::parse("https://example.com").unwrap();
+    let mk_opts = || creation_options(Reg { user_id: vec![7, 7], ..Default::default() });
+    let get_opts = || request_options(Auth { allow: Some(vec![cred_id(1)]), ..Default::default() });
+    // returns Ok(true) success, Ok(false) error, Err = panic
+    macro_rules! drive {
+        ($store:expr) => {{
+            let auth = mk_auth($store, uv.clone(), &cfg);
+            let mut client = passkey_client::Client::new(auth);
+            macro_rules! go {
+                ($e:expr) => {{
+                    let cd = OwnClientData { hash: hashv.clone(), extra: $e };
+                    par::catch(std::panic::AssertUnwindSafe(|| if get { crate::core::exec::block_on(client.authenticate(&origin, get_opts(), cd)).map(|_| ()).map_err(|e| format!("{e:?}")) } else { crate::core::exec::block_on(client.register(&origin, mk_opts(), cd)).map(|_| ()).map_err(|e| format!("{e:?}")) }))
+                }};
+            }
+            match extra {
+                "struct" => go!(PkgExtra { android_package_name: "com.example.app".into() }),
+                "map" => go!(json!({"vendor": {"a": 1}, "z": [1, 2]})),
+                "empty-map" => go!(json!({})),
+                "string" => go!("extra".to_string()),
+                "integer" => go!(7u32),
+                "list" => go!(vec![1u8, 2, 3]),
+                "null-option" => go!(Option::<PkgExtra>::None),
+                "bool" => go!(true),
+                "unserialisable" => go!(Unserialisable),
+                _ => go!(()),
+            }
+        }};
+    }
+    let (before, result, after): (Vec<Rec>, Result<Result<(), String>, String>, Vec<Rec>) = match store {
+        "memory+mutex" => {
+            let m: MemoryStore = seeds().into_iter().map(|p| (p.credential_id.to_vec(), p)).collect();
+            let shared = Arc::new(tokio::sync::Mutex::new(m));
+            let b = shared.recs();
+            let r = drive!(shared.clone());
+            (b, r, shared.recs())
+        }
+        "option+rwlock" => {
+            let shared = Arc::new(tokio::sync::RwLock::new(seeds().into_iter().next()));
+            let b = shared.recs();
+            let r = drive!(shared.clone());
+            (b, r, shared.recs())
+        }
+        _ => {
+            let mut rs = RefStore::with(seeds());
+            rs.newest_first = false;
+            let base = Shared::new(rs);
+            let b = base.recs();
+            let r = drive!(base.clone());
+            (b, r, base.recs())
+        }
+    };
+    let op = if get { "get" } else { "make" };
+    let what = format!("{} through the client with caller-supplied client data (extra: {extra}, hash: {hash}) on the {store} store", if get { "assertion" } else { "registration" });
+    let mut v = vec![];
+    match result {
+        Ok(Ok(())) => {
+            if !get {
+                let new = after.iter().filter(|r| !before.iter().any(|b| b.id == r.id)).count();
+                if new != 1 {
+                    v.push((format!("op={op}/kind=success-but-store-not-extended"), format!("{what}: succeeded, {new} new records")));
+                }
+            }
+        }
+        Ok(Err(e)) => {
+            if get {
+                // an assertion that fails late may have advanced the counter of the credential it tried, nothing else
+                let same = before.len() == after.len() && before.iter().all(|b| after.iter().any(|a| { let mut b2 = b.clone(); b2.counter = a.counter; *a == b2 && a.counter >= b.counter }));
+                if !same {
+                    v.push((format!("op={op}/kind=failed-assertion-altered-record"), format!("{what}: returned {e}, store changed beyond a counter")));
+                }
+            } else if after != before {
+                v.push((format!("op={op}/kind=failed-registration-changed-store"), format!("{what}: returned {e} but the store went {} → {} records", before.len(), after.len())));
+            }
+        }
+        Err(p) => {
+            if !get && after != before {
+                v.push((format!("op={op}/kind=failed-registration-changed-store"), format!("{what}: panicked ({}) and the store went {} → {} records", p.chars().take(80).collect::<String>(), before.len(), after.len())));
+            }
+            if get && (before.len() != after.len()) {
+                v.push((format!("op={op}/kind=failed-assertion-altered-record"), format!("{what}: panicked and the store went {} → {} records", before.len(), after.len())));
+            }
+        }
+    }
+    v
+}
+fn own_client_data(stats: &mut Stats) {
+    for get in [false, true] {
+        for store in ["ref", "memory+mutex", "option+rwlock"] {
+            for extra in EXTRAS {
+                for hash in HASHES {
+                    for counter in [false, true] {
+                        let case = json!({"own_client_data": {"get": get, "store": store, "extra": extra, "hash": hash, "counter": counter}});
+                        stats.case(&(get, store, extra, hash, counter, "own-client-data"), true, "own-client-data");
+                        for (k, d) in own_client_data_one(get, store, extra, hash, counter) {
+                            stats.finding(Finding::new(k, d, case.clone()));
+                        }
+                    }
+                }
+            }
+        }
+    }
+    stats.count("caller_supplied_client_data_ceremonies", (2 * 3 * EXTRAS.len() * HASHES.len() * 2) as u64);
+}
+
 pub fn run(ctx: &Ctx) -> Result<Run, String> {
     let bs = bases(ctx.tier);
     let mut stats = par::sweep_cases(&bs, ctx.threads, |b, st| {
@@ -527,12 +674,13 @@ pub fn run(ctx: &Ctx) -> Result<Run, String> {
             st.findings_from(fs);
         }
     });
+    own_client_data(&mut stats);
     for b in bs.iter().step_by(bs.len() / 3 + 1) {
         stats.samples.push(json!({"request": b.request, "store": b.store, "plan": b.plan, "cancel_after": "None and every k < polls-to-completion"}));
     }
     let mut run = Run::from_stats(
         "fault_enumeration",
-        "requests {make for a user handle that already has a credential at the RP (discoverable and not), make through the client with credProps (and prf), make through the client with every attestation preference (4) x attestationFormats shape (absent, empty, [packed], [none], [packed, none], [tpm, apple]), get through the client with prf; make: plain, exclude-list hit, exclude-list miss, non-rk, PRF, counter, PRF evaluation that fails late (verification-gated secrets, unverified ceremony), unsupported algorithm, pin-auth, verification unconfigured; get: allow list, no list, PRF, counter-less, PRF on a credential without secret, PRF without verification on a credential that carries only the gated secret under a configuration with the non-gated one (with and without counter), PRF that fails late, stored counter at 2^32-1 (with and without a late failure), pin-auth, two listed credentials, two listed credentials with counters of which the first fails after its counter write (both list orders), silent (up = uv = false, nothing reported) with and without PRF} x store stack {contract store, behind Arc<Mutex>, behind Arc<RwLock>} x fault plans over the faultable store calls (every single call x 6 status codes, every subset of >= 2 calls with KeyStoreFull; thorough: subsets x 6 codes and single faults x all 256 bytes) x cancellation after every k < polls-to-completion (every store call and the user step suspend once); plus U2F registrations with a fresh key handle and with a key handle that is already the id of another relying party's credential, on Arc<Mutex<MemoryStore>> (an error leaves the store as it was; success leaves exactly one record under that id, bound to the application); plus cancellation-only runs on Arc<Mutex<MemoryStore>> and on an occupied Arc<RwLock<Option<Passkey>>> (assertions, and registrations - plain, with counter, with PRF, through the client - after which the slot holds the new credential and nothing else). Oracle: store snapshot before/after against a model that applies only the calls that returned Ok, call log, result. Every (request, store, plan, cancellation point) is a distinct case",
+        "requests {make for a user handle that already has a credential at the RP (discoverable and not), make through the client with credProps (and prf), make through the client with every attestation preference (4) x attestationFormats shape (absent, empty, [packed], [none], [packed, none], [tpm, apple]), get through the client with prf; make: plain, exclude-list hit, exclude-list miss, non-rk, PRF, counter, PRF evaluation that fails late (verification-gated secrets, unverified ceremony), unsupported algorithm, pin-auth, verification unconfigured; get: allow list, no list, PRF, counter-less, PRF on a credential without secret, PRF without verification on a credential that carries only the gated secret under a configuration with the non-gated one (with and without counter), PRF that fails late, stored counter at 2^32-1 (with and without a late failure), pin-auth, two listed credentials, two listed credentials with counters of which the first fails after its counter write (both list orders), silent (up = uv = false, nothing reported) with and without PRF} x store stack {contract store, behind Arc<Mutex>, behind Arc<RwLock>} x fault plans over the faultable store calls (every single call x 6 status codes, every subset of >= 2 calls with KeyStoreFull; thorough: subsets x 6 codes and single faults x all 256 bytes) x cancellation after every k < polls-to-completion (every store call and the user step suspend once); plus U2F registrations with a fresh key handle and with a key handle that is already the id of another relying party's credential, on Arc<Mutex<MemoryStore>> (an error leaves the store as it was; success leaves exactly one record under that id, bound to the application); plus cancellation-only runs on Arc<Mutex<MemoryStore>> and on an occupied Arc<RwLock<Option<Passkey>>> (assertions, and registrations - plain, with counter, with PRF, through the client - after which the slot holds the new credential and nothing else). plus registrations and assertions through the client with caller-supplied client data: 10 kinds of extra members (unit, struct, maps, and values that cannot be flattened into the JSON: string, number, list, bool, a value that refuses to serialise) x 4 caller-supplied hashes (none, 32 bytes, empty, 5 bytes) x 3 stores x counter on/off - whether the client gives up by error or by panic, a registration that did not succeed leaves the store as it was. Oracle: store snapshot before/after against a model that applies only the calls that returned Ok, call log, result. Every (request, store, plan, cancellation point) is a distinct case",
         true,
         stats,
     );
@@ -541,6 +689,9 @@ pub fn run(ctx: &Ctx) -> Result<Run, String> {
 }
 
 pub fn replay(_ctx: &Ctx, case: &Value) -> Result<Vec<Finding>, String> {
+    if let Some(o) = case.get("own_client_data") {
+        return Ok(own_client_data_one(o["get"].as_bool().unwrap_or(false), o["store"].as_str().unwrap_or("ref"), o["extra"].as_str().unwrap_or("unit"), o["hash"].as_str().unwrap_or("none"), o["counter"].as_bool().unwrap_or(false)).into_iter().map(|(k, d)| Finding::new(k, d, case.clone())).collect());
+    }
     let c: Case = serde_json::from_value(case.clone()).map_err(|e| format!("bad C07 case: {e}"))?;
     Ok(eval(&c).0)
 }
